@@ -117,6 +117,7 @@ type c09world struct {
 	handler  slog.Handler
 	handler3 slog.Handler // three pending groups: derivations from it share whatever backing storage the handler keeps
 	bws      *zapcore.BufferedWriteSyncer
+	restore  func() // the restore function of a ReplaceGlobals made during set-up
 	locked   zapcore.WriteSyncer
 	combined zapcore.WriteSyncer
 	runTag   string
@@ -194,6 +195,7 @@ func runC09(c *Ctx) {
 	}
 	base := zap.New(core, opts...)
 	// shared loggers: some fresh (first use happens under contention)
+	w.restore = zap.ReplaceGlobals(base.Named("global"))
 	w.loggers = []*zap.Logger{
 		base,
 		base.With(zap.Int("shared", 1), zap.String("k", "v")),
@@ -436,6 +438,12 @@ func c09exec(c *Ctx, w *c09world, t, i int, op c09op) {
 	case 8:
 		switch op.b % 4 {
 		case 0:
+			if op.c%3 == 0 {
+				// one restore function, obtained before the tasks started, called
+				// by whoever gets here (it is part of the concurrency-safe surface)
+				w.restore()
+				break
+			}
 			undo := zap.ReplaceGlobals(l)
 			if op.a%2 == 0 {
 				undo()
